@@ -65,6 +65,16 @@ pub struct IterCase {
     /// registered for SIGWINCH must be gone afterwards (the late deliveries then include SIGWINCH).
     #[serde(default)]
     pub failed_ctor: u8,
+    /// consumer modes 0 and 2 only: the very first batch (`pending()`) is handed to a second
+    /// thread which drains it at a time of the schedule's choosing, concurrently with the
+    /// consumer's own scans (a `Pending` does not borrow the instance and is `Send`; several
+    /// readers are documented as safe)
+    #[serde(default)]
+    pub handoff: bool,
+    /// run-length factor of the schedule (vsched::Config::stretch): iterator runs have several
+    /// hundred choice points (each scan is 129 loads), far more than the schedule has bytes
+    #[serde(default)]
+    pub stretch: u8,
 }
 
 pub fn strategy(with_close: bool) -> BoxedStrategy<IterCase> {
@@ -104,11 +114,13 @@ pub fn strategy(with_close: bool) -> BoxedStrategy<IterCase> {
         schedule_strategy(200),
         prop_oneof![1 => Just(vec![]), 1 => vec(0u8..3, 1..5)],
         prop_oneof![3 => Just(0u8), 1 => 1u8..4],
+        prop::bool::weighted(0.35),
+        prop_oneof![2 => Just(1u8), 1 => Just(2u8), 2 => Just(4u8), 1 => Just(8u8)],
     )
-        .prop_map(|(exf, consumer, polls, init, others, nested, schedule, late, failed_ctor)| {
+        .prop_map(|(exf, consumer, polls, init, others, nested, schedule, late, failed_ctor, handoff, stretch)| {
             let n = others.len() + 1;
             let nested = nested.into_iter().map(|(t, at, sig, on)| INested { thread: t % n, at, sig, on }).collect();
-            IterCase { exf, consumer, polls, init, others, nested, schedule, late, failed_ctor }
+            IterCase { exf, consumer, polls, init, others, nested, schedule, late, failed_ctor, handoff, stretch }
         })
         .boxed()
 }
@@ -163,6 +175,10 @@ impl Rec for Origin {
 
 const SYNC_DELIVERIES_DONE: u32 = 7;
 
+fn second_consumer(case: &IterCase) -> bool {
+    has_second_consumer(case)
+}
+
 fn yielded<R: Rec>(r: &R, phase: i64) {
     vsched::mark("yield", r.sig() as i64, r.id());
     if let Some(why) = r.unfaithful() {
@@ -171,10 +187,17 @@ fn yielded<R: Rec>(r: &R, phase: i64) {
     let _ = phase;
 }
 
-fn consumer_body<E>(case: &IterCase, rd: UnixStream, wr: UnixStream, handle_out: std::sync::mpsc::Sender<Handle>)
+const SYNC_BATCH: u32 = 8;
+type Batch = Arc<std::sync::Mutex<Option<Box<dyn FnOnce() + Send>>>>;
+
+pub fn has_second_consumer(case: &IterCase) -> bool {
+    case.handoff && matches!(case.consumer % 4, 0 | 2)
+}
+
+fn consumer_body<E>(case: &IterCase, rd: UnixStream, wr: UnixStream, handle_out: std::sync::mpsc::Sender<Handle>, batch: Batch)
 where
     E: Exfiltrator + Default,
-    E::Output: Rec,
+    E::Output: Rec + Send,
 {
     let init: Vec<c_int> = case.init.iter().map(|s| SIGS[*s as usize % 3]).collect();
     let read_fd = rd.as_raw_fd();
@@ -204,6 +227,15 @@ where
             }
             vsched::ret(c, 0);
             handle_out.send(sigs.handle()).unwrap();
+            if has_second_consumer(case) {
+                let p = sigs.pending();
+                *batch.lock().unwrap() = Some(Box::new(move || {
+                    for r in p {
+                        yielded(&r, 0);
+                    }
+                }));
+                vsched::sync_signal(SYNC_BATCH);
+            }
             match case.consumer % 4 {
                 0 => loop {
                     let c = vsched::call("wait", 0, 0);
@@ -392,7 +424,8 @@ where
 pub fn execute(case: &IterCase) -> (RunResult, CaseReport) {
     crate::forkrun::ignore_sigpipe();
     let nothers = case.others.len();
-    let n = nothers + 2; // consumer + others + observer
+    let second = has_second_consumer(case);
+    let n = nothers + 2 + second as usize; // consumer + others + observer (+ second consumer)
     let cfg = Config {
         schedule: case.schedule.clone(),
         step_bound: 60_000,
@@ -404,6 +437,7 @@ pub fn execute(case: &IterCase) -> (RunResult, CaseReport) {
         // channel cells are never freed during a run and accesses are physically serialised:
         // go on after a detected race so that its consequences reach the C09/C10 oracles
         abort_on_cell_race: false,
+        stretch: case.stretch,
     };
     let exec = Exec::new(cfg, n);
     {
@@ -431,12 +465,14 @@ pub fn execute(case: &IterCase) -> (RunResult, CaseReport) {
         }
     };
     let mut bodies: Vec<Box<dyn FnOnce() + Send>> = Vec::new();
+    let batch: Batch = Arc::new(std::sync::Mutex::new(None));
     {
         let case = case.clone();
+        let batch = batch.clone();
         bodies.push(Box::new(move || match case.exf % 3 {
-            0 => consumer_body::<SignalOnly>(&case, rd, wr, tx),
-            1 => consumer_body::<WithRawSiginfo>(&case, rd, wr, tx),
-            _ => consumer_body::<WithOrigin>(&case, rd, wr, tx),
+            0 => consumer_body::<SignalOnly>(&case, rd, wr, tx, batch),
+            1 => consumer_body::<WithRawSiginfo>(&case, rd, wr, tx, batch),
+            _ => consumer_body::<WithOrigin>(&case, rd, wr, tx, batch),
         }));
     }
     let remaining = Arc::new(std::sync::atomic::AtomicUsize::new(nothers));
@@ -519,6 +555,18 @@ pub fn execute(case: &IterCase) -> (RunResult, CaseReport) {
             }
         }));
     }
+    if second {
+        let batch = batch.clone();
+        bodies.push(Box::new(move || {
+            vsched::sync_wait(SYNC_BATCH);
+            let f = batch.lock().unwrap().take();
+            if let Some(f) = f {
+                let c = vsched::call("drain-batch", 0, 0);
+                f();
+                vsched::ret(c, 0);
+            }
+        }));
+    }
     exec.run(bodies);
     let res = exec.finish();
     let rep = analyse(case, &res);
@@ -544,6 +592,7 @@ pub fn analyse(case: &IterCase, res: &RunResult) -> CaseReport {
     let mut dels: Vec<Dl> = Vec::new();
     let mut open_del: HashMap<i32, Vec<usize>> = HashMap::new();
     let mut yields: Vec<(usize, i64, i64, usize, bool)> = Vec::new(); // (pos, sig, id, load pos, post-close)
+    let mut yield_tid: HashMap<usize, i32> = HashMap::new();
     let mut add_call: BTreeMap<i64, usize> = BTreeMap::new();
     let mut add_ret: BTreeMap<i64, usize> = BTreeMap::new();
     let mut last_op_pos: HashMap<i32, usize> = HashMap::new();
@@ -577,7 +626,10 @@ pub fn analyse(case: &IterCase, res: &RunResult) -> CaseReport {
                         dels[k].end = Some(i);
                     }
                 }
-                "yield" => yields.push((i, *a, *b, last_op_pos.get(&r.tid).cloned().unwrap_or(i), post_close)),
+                "yield" => {
+                    yields.push((i, *a, *b, last_op_pos.get(&r.tid).cloned().unwrap_or(i), post_close));
+                    yield_tid.insert(i, r.tid);
+                }
                 "add-call" => {
                     add_call.entry(*a).or_insert(i);
                 }
@@ -684,8 +736,11 @@ pub fn analyse(case: &IterCase, res: &RunResult) -> CaseReport {
     {
         let mut yielded_so_far: HashMap<i64, u64> = HashMap::new();
         let mut seen_ids: BTreeSet<i64> = BTreeSet::new();
-        let mut last_rec_delivery: HashMap<i64, i64> = HashMap::new();
+        // order is judged per consuming thread: two threads draining concurrently log their
+        // yields in an order that says nothing about the order in which they took the records
+        let mut last_rec_delivery: HashMap<(i64, i32), i64> = HashMap::new();
         for (pos, sig, id, _load, _pc) in &yields {
+            let ytid = yield_tid.get(pos).cloned().unwrap_or(0);
             // watched?
             match add_call.get(sig) {
                 Some(ac) if *ac < *pos => {}
@@ -704,18 +759,51 @@ pub fn analyse(case: &IterCase, res: &RunResult) -> CaseReport {
                             rep.viol("C10/record", format!("delivery {} of signal {} produced two records", id, sig));
                         }
                         // order within one signal
-                        if let Some(prev) = last_rec_delivery.get(sig) {
+                        if let Some(prev) = last_rec_delivery.get(&(*sig, ytid)) {
                             if let Some(pd) = dels.iter().find(|x| x.id == *prev) {
                                 if d.end.map_or(false, |e| e < pd.start) {
                                     rep.viol("C10/record-order", format!("record of delivery {} came out after that of delivery {} which began after it had ended", id, prev));
                                 }
                             }
                         }
-                        last_rec_delivery.insert(*sig, *id);
+                        last_rec_delivery.insert((*sig, ytid), *id);
                     }
                     _ => rep.viol("C10/record", format!("yielded record (signal {}, sender id {}) matches no delivery that had begun", sig, id)),
                 }
             }
+        }
+    }
+
+    // A delivery whose info-carrying action found "no free slot" only because its Relaxed load of
+    // the channel's empty-queue word returned a stale value (allowed by the declared orderings:
+    // nothing orders the consumer's slot returns before a later delivery on another thread). The
+    // channel is entitled to discard then (C06: the values are "not yet completely received by a
+    // receive ordered before that send"), and C09 quantifies over interleavings, not over
+    // weak-memory outcomes - so the iterator owes nothing for such a delivery.
+    let mut stale_discard: BTreeSet<i64> = BTreeSet::new();
+    if case.exf % 3 != 0 {
+        use std::sync::atomic::Ordering as O;
+        // the empty-queue words: where deliveries do their Acquire CAS (dequeue of a free slot)
+        // and where consumers do their Release CAS (return of a slot)
+        let mut empty_words: BTreeSet<usize> = BTreeSet::new();
+        for r in log.iter() {
+            if let Item::Op { kind: Kind::Cas | Kind::CasWeak, addr, ord, ok: true, .. } = &r.item {
+                if (r.depth > 0 && *ord == O::Acquire) || (r.depth == 0 && *ord == O::Release) {
+                    empty_words.insert(*addr);
+                }
+            }
+        }
+        for d in dels.iter().filter(|d| d.target == 1) {
+            let end = d.end.unwrap_or(log.len());
+            let tid = log[d.start].tid;
+            let wrote = log[d.start..end].iter().any(|r| r.tid == tid && matches!(&r.item, Item::Event { ev: Event::CellWrite, .. }));
+            let stale_view = log[d.start..end].iter().any(|r| r.tid == tid && matches!(&r.item, Item::Op { kind: Kind::Load, addr, stale, .. } if *stale > 0 && empty_words.contains(addr)));
+            if !wrote && stale_view {
+                stale_discard.insert(d.id);
+            }
+        }
+        if !stale_discard.is_empty() {
+            rep.class("record-discarded-on-stale-view-of-free-slots");
         }
     }
 
@@ -730,7 +818,7 @@ pub fn analyse(case: &IterCase, res: &RunResult) -> CaseReport {
                     (Some(s), Some(e)) => (s, e),
                     _ => continue,
                 };
-                if end > horizon {
+                if end > horizon || stale_discard.contains(&d.id) {
                     continue;
                 }
                 // The instance's own action ran for this delivery (it stored the signal and sent a
@@ -862,6 +950,21 @@ pub fn analyse(case: &IterCase, res: &RunResult) -> CaseReport {
     let nt01 = !case.late.is_empty() || case.failed_ctor != 0;
     rep.nontrivial_by = vec![("C09".into(), nt09), ("C10".into(), nt10), ("C11".into(), nt11), ("C03".into(), nt09), ("C01".into(), nt01), ("C18".into(), log.iter().any(|r| matches!(r.item, Item::Blocked { what: "mutex", .. })))];
     rep.nontrivial = nt09 || nt10 || nt11;
+    // C13 in iterator scenarios: one instance, every watched signal registered once, so a delivery
+    // makes exactly one wake-up attempt on the instance's self-pipe
+    for d in dels.iter().filter(|d| d.target == 1 && d.stored.is_some()) {
+        let end = d.end.unwrap_or(log.len());
+        let tid = log[d.start].tid;
+        let depth_in = log[d.start].depth + 1;
+        let wakes = log[d.start..end].iter().filter(|r| r.tid == tid && r.depth == depth_in && matches!(&r.item, Item::Point { kind: Kind::PipeWake, .. })).count();
+        let stores = log[d.start..end].iter().filter(|r| r.tid == tid && r.depth == depth_in && matches!(&r.item, Item::Event { ev: Event::Stored, .. })).count();
+        if d.end.is_some() && (wakes != 1 || stores != 1) {
+            rep.viol("C13/count", format!("delivery {} of signal {} stored {} times and made {} wake-up attempts on the self-pipe of an instance that watches the signal once", d.id, d.sig, stores, wakes));
+        }
+    }
+    if second_consumer(case) {
+        rep.class("concurrent-batch-consumers");
+    }
     // C03 on iterator actions: reuse the op-kind rule inside deliveries
     for d in dels.iter().filter(|d| d.target == 1) {
         let end = d.end.unwrap_or(log.len());
@@ -927,7 +1030,7 @@ fn render(case: &IterCase, res: &RunResult) -> Value {
             other => format!("{:?}", other),
         };
         lines.push(format!("{:>4} t{} d{} {}", r.step, r.tid, r.depth, s));
-        if lines.len() > 500 {
+        if lines.len() > std::env::var("VERIF_TRACE_MAX").ok().and_then(|x| x.parse().ok()).unwrap_or(500usize) {
             lines.push("...".into());
             break;
         }
